@@ -458,8 +458,10 @@ pub fn case(c: &Case) -> CaseOut {
                 probe(&mut w, ep, cid);
             }
         }
+        // (the IDs a server issues in NEW_CONNECTION_ID frames are only visible under SimCrypto; a client
+        // switches to such an ID even for its remaining Initial and Handshake packets)
         for (ep, cid) in &odcids {
-            if cid.len() == w.eps[*ep].spec.cid_len as usize && !cids.contains(&(*ep, cid.clone())) {
+            if c.net.crypto == CryptoKind::Sim && cid.len() == w.eps[*ep].spec.cid_len as usize && !cids.contains(&(*ep, cid.clone())) {
                 probe(&mut w, *ep, cid);
             }
         }
@@ -478,6 +480,21 @@ pub fn case(c: &Case) -> CaseOut {
                             eprintln!("conn {k} {:?} probe {:?}\n   stats {:?}", cs.side, cs.c.verif_probe(), cs.c.stats());
                         }
                         eprintln!("retired_seq={retired_seq:?}\nby_seq={by_seq:?}\nodcids={odcids:?}\nprobe rec={rec:?}");
+                        for r in &w.trace {
+                            match r {
+                                Rec::Tx { t, conn, dgrams, .. } => {
+                                    for p in dgrams.iter().flat_map(|d| d.pkts.iter()) {
+                                        eprintln!("PKT t={t} conn={conn} ty={:?} dcid={:?} scid={:?} parsed={} ncid={:?}", p.ty, p.dcid, p.scid, p.frames.is_some(), p.frames.iter().flatten().filter_map(|f| if let OF::NewConnectionId { seq, cid, .. } = f { Some((*seq, cid.clone())) } else { None }).collect::<Vec<_>>());
+                                    }
+                                }
+                                Rec::TxEp { t, ep, dgram, .. } => {
+                                    for p in &dgram.pkts {
+                                        eprintln!("PKTEP t={t} ep={ep} ty={:?} dcid={:?} scid={:?}", p.ty, p.dcid, p.scid);
+                                    }
+                                }
+                                _ => {}
+                            }
+                        }
                         for r in &w.trace {
                             let t = format!("{r:?}");
                             if t.contains("RetireConnectionId") || t.contains("NewConnectionId") || t.starts_with("Rx") || t.starts_with("Lost") || t.starts_with("Drained") {
